@@ -297,6 +297,7 @@ type vf6Output struct {
 	final     int64 // last stream offset the source will have produced
 	proxy     *vf6Chan
 	incr      func() usync.WaitChannel // closed once the input's log writer phase has begun
+	patience  *atomic.Int64            // ms to wait for something that normally takes < 1 ms; shrinks after each miss
 	mu        sync.Mutex
 	spIds     [][]string
 	setRunIds []string
@@ -354,9 +355,16 @@ func (o *vf6Output) Send(ctx context.Context, reader ChannelReader) error {
 		n, rerr = io.ReadFull(reader.IoReader(), buf)
 		close(done)
 	}()
+	wait := func() time.Duration { return time.Duration(o.patience.Load()) * time.Millisecond }
+	miss := func() {
+		if v := o.patience.Load(); v > 100 {
+			o.patience.Store(v / 2)
+		}
+	}
 	select {
 	case <-done:
-	case <-time.After(5 * time.Second):
+	case <-time.After(wait()):
+		miss()
 		reader.Close()
 		<-done
 		rerr = fmt.Errorf("timeout")
@@ -373,9 +381,10 @@ func (o *vf6Output) Send(ctx context.Context, reader ChannelReader) error {
 	// (ending the run earlier leaves the writer unstarted and unclosed)
 	select {
 	case <-o.incr():
-	case <-time.After(5 * time.Second):
+	case <-time.After(wait()):
+		miss()
 	}
-	deadline := time.Now().Add(5 * time.Second)
+	deadline := time.Now().Add(wait())
 	for time.Now().Before(deadline) {
 		if o.proxy.aofWriterSeen() {
 			in := o.proxy.inner
@@ -388,6 +397,9 @@ func (o *vf6Output) Send(ctx context.Context, reader ChannelReader) error {
 			}
 		}
 		time.Sleep(200 * time.Microsecond)
+	}
+	if !o.ingested {
+		miss()
 	}
 	return nil
 }
@@ -593,6 +605,16 @@ func (b *vf6Sink) commit(h *vf6H) {
 		h.s.Distinct(k)
 	}
 	for _, v := range b.viols {
+		// name the ops of this case by their final index
+		for k, x := range v.rp {
+			if str, ok := x.(string); ok && len(tags) > 0 {
+				ri, _ := v.rp["round"].(int)
+				if ri >= len(tags) {
+					ri = len(tags) - 1
+				}
+				v.rp[k] = strings.ReplaceAll(str, "#T", tags[ri])
+			}
+		}
 		h.s.Violate(v.what, v.detail, v.rp)
 	}
 }
@@ -607,6 +629,9 @@ type vf6H struct {
 	nCase  int
 	inCfg  config.RedisConfig
 	slowMs int64
+	// patience (ms) for waits that normally end within a millisecond; halves
+	// after every miss so that a broken build does not stall the run
+	patience atomic.Int64
 }
 
 func (h *vf6H) newChannel(c *vf6Case, dir string) Channel {
@@ -691,7 +716,7 @@ func (h *vf6H) round(c *vf6Case, inner Channel, replay map[string]interface{}) *
 
 	// ---- the real input against double, proxy and recording output
 	proxy := &vf6Chan{inner: inner}
-	out := &vf6Output{sp: c.sp, final: final, proxy: proxy}
+	out := &vf6Output{sp: c.sp, final: final, proxy: proxy, patience: &h.patience}
 	ri := NewRedisInput(h.inCfg)
 	ri.SetOutput(out)
 	ri.SetChannel(proxy)
@@ -960,7 +985,10 @@ func (h *vf6H) round(c *vf6Case, inner Channel, replay map[string]interface{}) *
 						if e != nil || !bytes.Equal(buf, w.histRange(src.id1, from, cr)) {
 							s.Violate("cache-bytes", fmt.Sprintf("cache [%d,%d) under %s differs from hist(id1) (err=%v)", from, cr, arid, e), rp(""))
 						}
-					case <-time.After(5 * time.Second):
+					case <-time.After(time.Duration(h.patience.Load()) * time.Millisecond):
+						if v := h.patience.Load(); v > 100 {
+							h.patience.Store(v / 2)
+						}
 						s.Violate("cache-bytes", "cache read-back timed out", rp(""))
 					}
 					wc.Close(nil)
@@ -1217,6 +1245,7 @@ func TestVerifC06(t *testing.T) {
 	log.InitLog(*config.GetSyncerConfig().Log)
 
 	h := &vf6H{t: t, s: s, ln: ln, tmp: tmp, inCfg: *config.GetSyncerConfig().Input.Redis}
+	h.patience.Store(5000)
 
 	runCase := func(c0 *vf6Case, srcTag string, rounds int) {
 		// follow-up rounds draw from a per-case generator so that a repeated
@@ -1291,6 +1320,10 @@ func TestVerifC06(t *testing.T) {
 	}
 	n := vfutil.Scale(1200, 20000)
 	for i := 0; i < n; i++ {
+		if len(s.Viol) >= 30 {
+			s.Count("stopped_after_30_violations")
+			break // the failing inputs are found; no need to keep a broken build running
+		}
 		c := vf6GenCase(r)
 		rounds := 1
 		if r.Chance(1, 3) {
